@@ -257,6 +257,20 @@ def gen_case(rng, tier="quick"):
             align.append({"label": "match", "score_id": sid, "performance_id": pid})
         elif rng.random() < p_del:
             align.append({"label": "deletion", "score_id": sid})
+    if rng.random() < 0.85:
+        # make the alignment touch every bar between its first and last stored note (where a note starts there)
+        stored = set(a["score_id"] for a in align if a["label"] in ("match", "deletion"))
+        for (ms, me, _) in pd["measures"]:
+            inbar = [s for s in sids if ms <= byid[s]["t"] < me]
+            if inbar and not any(s in stored for s in inbar):
+                sid = rng.choice(inbar)
+                if rng.random() < 0.5:
+                    align.append({"label": "deletion", "score_id": sid})
+                else:
+                    n = byid[sid]
+                    pid = new_pid()
+                    notes.append(perf_note(pid, midi(n), t0 + n["t"] / divs * spq + rng.uniform(-0.03, 0.03), tied_dur(n) / divs * spq * rng.uniform(0.3, 1.1)))
+                    align.append({"label": "match", "score_id": sid, "performance_id": pid})
     end_q = pd["measures"][-1][1] / divs
     for _ in range(rng.choice([0, 0, 1, 2, 4])):
         pid = new_pid()
@@ -356,10 +370,36 @@ def tick_ok(tick, t, ppq, mpq):
     return abs(Fraction(int(tick)) - x) <= Fraction(1, 2) + Fraction(1, 10**6)
 
 
-def save_and_load(desc, keep_text=True):
-    """returns dict(text=[lines], perf, align, score) or dict(error=...)"""
+def load_all(fn, res):
+    """load_matchfile + load_match(create_score=True) on a file; fills res"""
+    import warnings
+    from partitura.io.importmatch import load_match, load_matchfile
+
+    try:
+        mf = quiet(load_matchfile, fn)
+        res["mf"] = mf
+        res["mf_lines"] = list(mf.lines)
+    except Exception as e:
+        res["load_error"] = "%s: %s" % (type(e).__name__, e)
+        return
+    try:
+        with warnings.catch_warnings(record=True) as wl:
+            warnings.simplefilter("always")
+            perf, al, sc = quiet(load_match, fn, create_score=True)
+        res["n_fallback"] = sum(1 for w in wl if "does not match `OnsetInBeats`" in str(w.message))
+        res["perf"], res["align"], res["score"] = perf, al, sc
+    except Exception as e:
+        res["load_error"] = "%s: %s" % (type(e).__name__, e)
+        try:
+            perf, al = quiet(load_match, fn, create_score=False)
+            res["perf"], res["align"] = perf, al
+        except Exception as e2:
+            res["load_error2"] = "%s: %s" % (type(e2).__name__, e2)
+
+
+def save_and_load(desc, edit_text=None):
+    """returns dict(text=[lines], perf, align, score, mf, ...) or dict(save_error=...)"""
     from partitura.io.exportmatch import save_match
-    from partitura.io.importmatch import load_match
 
     part = build_part(desc["part"])
     ppart = build_perf(desc)
@@ -375,16 +415,11 @@ def save_and_load(desc, keep_text=True):
         res["text"] = open(fn).read().split("\n")
         if res["text"] and res["text"][-1] == "":
             res["text"].pop()
-        try:
-            perf, al, sc = quiet(load_match, fn, create_score=True)
-            res["perf"], res["align"], res["score"] = perf, al, sc
-        except Exception as e:
-            res["load_error"] = "%s: %s" % (type(e).__name__, e)
-            try:
-                perf, al = quiet(load_match, fn, create_score=False)
-                res["perf"], res["align"] = perf, al
-            except Exception as e2:
-                res["load_error2"] = "%s: %s" % (type(e2).__name__, e2)
+        if edit_text is not None:
+            res["text"] = edit_text(res["text"])
+            with open(fn, "w") as f:
+                f.write("\n".join(res["text"]) + "\n")
+        load_all(fn, res)
     return res
 
 
@@ -444,7 +479,10 @@ def oracle_rt(desc, res):
     if len(lp.notes) != len(desc["perf"]["notes"]):
         F.append("perf: %d notes loaded, %d saved" % (len(lp.notes), len(desc["perf"]["notes"])))
     for num, nm in ((64, "sustain"), (67, "soft")):
-        saved = [c for c in desc["perf"]["controls"] if c["number"] == num]
+        saved = []
+        for c in desc["perf"]["controls"]:
+            if c["number"] == num and not any(c["value"] == o["value"] and round(exact_tick(c["time"], ppq, mpq)) == round(exact_tick(o["time"], ppq, mpq)) for o in saved):
+                saved.append(c)
         loaded = [c for c in lp.controls if c["number"] == num]
         if len(saved) != len(loaded):
             F.append("pedal: %d %s events loaded, %d saved" % (len(loaded), nm, len(saved)))
@@ -482,7 +520,7 @@ def oracle_rt(desc, res):
     pd = desc["part"]
     byid = {n["id"]: n for n in pd["notes"]}
     stored = [a["score_id"] for a in desc["align"] if a["label"] in ("match", "deletion")]
-    if not stored:
+    if not stored or not bars_covered(desc):
         return F
     sbm, lbm = sp.beat_map, lpart.beat_map
     lna = {}
@@ -531,6 +569,7 @@ def oracle_rt(desc, res):
     lmeas = sorted(m.start.t for m in lpart.iter_all(S.Measure))
     lmeas_b = [float(lbm(t)) for t in lmeas]
     prev_ts = None
+    prev_ks = None
     l_ts = {}
     for o in lpart.iter_all(S.TimeSignature):
         l_ts.setdefault(o.start.t, []).append((o.beats, o.beat_type))
@@ -553,7 +592,7 @@ def oracle_rt(desc, res):
                     if tuple(cur_ts) not in l_ts.get(lt, []):
                         F.append("timesig: %r written at the bar starting at beat %r, loaded time signatures there: %r (all: %r)" % (
                             cur_ts, mb, l_ts.get(lt), sorted(l_ts.items())[:6]))
-                if ms in ks_at:
+                if ms in ks_at and (ks_at[ms][0], ks_at[ms][1] or "major") != prev_ks:
                     f, m = ks_at[ms]
                     m = m or "major"
                     if (f, m) not in l_ks.get(lt, []):
@@ -561,11 +600,469 @@ def oracle_rt(desc, res):
                             (f, m), mb, l_ks.get(lt), sorted(l_ks.items())[:6]))
         if cur_ts is not None:
             prev_ts = cur_ts
+        if ms in ks_at:
+            prev_ks = (ks_at[ms][0], ks_at[ms][1] or "major")
     return F
+
+
+def bars_covered(desc):
+    """every bar from the first to the last stored note holds the onset of a stored note"""
+    pd = desc["part"]
+    byid = {n["id"]: n for n in pd["notes"]}
+    ts = sorted(byid[a["score_id"]]["t"] for a in desc["align"] if a["label"] in ("match", "deletion"))
+    if not ts:
+        return False
+    for (ms, me, _) in pd["measures"]:
+        if me <= ts[0] or ms > ts[-1]:
+            continue
+        if not any(ms <= t < me for t in ts):
+            return False
+    return True
 
 
 def finding_key(desc, failure):
     return "C08/" + failure.split(":")[0]
+
+
+# ====================================================================== correspondence
+SNOTE_RE = re.compile(r"snote\(([^,]+),\[([A-Ga-gRr]),([^\]]*)\],(-?\d+|-),(-?\d+):(-?\d+),([^,]+),([^,]+),(-?[\d.]+),(-?[\d.]+),\[([^\]]*)\]\)")
+NOTE_RE = re.compile(r"(?<![a-z])note\(([^,]+),(\d+),(-?\d+),(-?\d+),(\d+),(\d+),(\d+)\)")
+SIG_RE = re.compile(r"scoreprop\((keySignature|timeSignature),([^,]+),(-?\d+):(-?\d+),([^,]+),(-?[\d.]+)\)\.")
+PEDAL_RE = re.compile(r"(sustain|soft)\((-?\d+),(-?\d+)\)\.")
+MAJ = ["Cb", "Gb", "Db", "Ab", "Eb", "Bb", "F", "C", "G", "D", "A", "E", "B", "F#", "C#"]
+MIN = ["Ab", "Eb", "Bb", "F", "C", "G", "D", "A", "E", "B", "F#", "C#", "G#", "D#", "A#"]
+
+
+def key_name(f, mode):
+    return MAJ[f + 7] if (mode or "major") == "major" else MIN[f + 7] + "m"
+
+
+def dec4(txt):
+    v = Fraction(txt) * 10000
+    assert v.denominator == 1
+    return int(v)
+
+
+def frac_fields(txt):
+    """'n', 'n/d', 'n/d/t' or a '+'-sum -> (num, den, tup, comps) as FractionalSymbolicDuration holds them"""
+    from partitura.io.matchfile_utils import FractionalSymbolicDuration as FSD
+
+    f = FSD.from_string(txt)
+    comps = [(int(a), int(b), int(c or 1)) for a, b, c in (f.add_components or [])]
+    return int(f.numerator), int(f.denominator), int(f.tuple_div or 1), comps
+
+
+def score_tokens(pd):
+    ts = sorted(pd["ts"])
+    return "%d %s %s" % (pd["divs"], W.lst(lambda x: "%d %d %d" % tuple(x), ts),
+                         W.lst(lambda m: "%d %d" % (m[0], m[1]), sorted(pd["measures"])))
+
+
+def beats_exact(pd, t):
+    """independent exact beat position (Fractions) used only to decide whether line order is unambiguous"""
+    ts = sorted(pd["ts"])
+    divs = pd["divs"]
+
+    def raw(t):
+        acc = Fraction(0)
+        for i, (st, b, bt) in enumerate(ts):
+            en = ts[i + 1][0] if i + 1 < len(ts) else None
+            if en is None or t < en:
+                return acc + Fraction((t - st) * bt, 4 * divs)
+            acc += Fraction((en - st) * bt, 4 * divs)
+        return acc
+
+    m0 = sorted(pd["measures"])[0]
+    shift = Fraction(0)
+    if ts and ts[0][0] == m0[0]:
+        actual = raw(m0[1]) - raw(m0[0])
+        if actual < ts[0][1]:
+            shift = actual
+    return raw(t) - shift
+
+
+def corr_rt(desc, res, ev):
+    """requests for the model and the implementation's canonical answers"""
+    import numpy as np
+    import partitura.score as S
+
+    pd = desc["part"]
+    byid = {n["id"]: n for n in pd["notes"]}
+    pnotes = {n["id"]: n for n in desc["perf"]["notes"]}
+    ppq, mpq = desc["ppq"], desc["mpq"]
+    text = res.get("text")
+    if text is None:
+        return
+    sct = score_tokens(pd)
+
+    def tied_dur(n):
+        du = n["dur"]
+        while n.get("tie"):
+            n = byid[n["tie"]]
+            du += n["dur"]
+        return du
+
+    # ---- score-side fields of the snote lines, in file order
+    sn = []
+    for ln in text:
+        m = SNOTE_RE.search(ln)
+        if m and ln.startswith("snote("):
+            sn.append((m, ln))
+    req = "enc %s %s" % (sct, W.lst(lambda x: "%d %d" % (byid[x[0].group(1)]["t"], tied_dur(byid[x[0].group(1)])), sn))
+    impl = W.f_list(lambda x: W.f_tuple(x[0].group(5), x[0].group(6), W.f_rat(Fraction(x[0].group(7))), W.f_rat(Fraction(x[0].group(8))),
+                                         str(dec4(x[0].group(9))), str(dec4(x[0].group(10)))), sn)
+    ev.requests.append(req)
+    ev.impl.append(impl)
+    # ---- signature lines
+    for attr, src, namef in (("keySignature", sorted(pd["ks"]), lambda x: key_name(x[1], x[2])),
+                             ("timeSignature", sorted(pd["ts"]), lambda x: "%d/%d" % (x[1], x[2]))):
+        lines = [SIG_RE.match(ln) for ln in text if ln.startswith("scoreprop(" + attr)]
+        used = set()
+        out = []
+        for m in lines:
+            k = next((i for i, x in enumerate(src) if i not in used and namef(x) == m.group(2)), None)
+            if k is not None:
+                used.add(k)
+            out.append(W.f_tuple(str(k if k is not None else -1), m.group(3), m.group(4), W.f_rat(Fraction(m.group(5))), str(dec4(m.group(6)))))
+        ev.requests.append("sig %s %s" % (sct, W.lst(lambda x: "%d" % x[0], src)))
+        ev.impl.append("[" + ",".join(out) + "]")
+    # ---- order of the note lines
+    al = desc["align"]
+    pairs = []
+    for a in al:
+        if a["label"] == "match" and a["score_id"] in byid and a["performance_id"] in pnotes:
+            n = byid[a["score_id"]]
+            pairs.append("%s %s %s" % (W.q(beats_exact(pd, n["t"])), W.b(n["kind"] == "note" and tied_dur(n) > 0), W.q(float(np.float32(pnotes[a["performance_id"]]["on"])))))
+    ents, keys_f = [], []
+    knots = {}
+    for a in al:
+        if a["label"] == "match":
+            n = byid[a["score_id"]]
+            if n["kind"] == "note":
+                knots.setdefault(n["t"], []).append(float(np.float32(pnotes[a["performance_id"]]["on"])))
+    kx = sorted((sum(v) / len(v), float(beats_exact(pd, t))) for t, v in knots.items())
+
+    def p2s(x):
+        xs = [k[0] for k in kx]
+        i = min(max(int(np.searchsorted(xs, x)), 1), len(xs) - 1)
+        (a, ya), (b, yb) = kx[i - 1], kx[i]
+        return (yb - ya) / (b - a) * (x - a) + ya
+
+    for a in al:
+        if a["label"] in ("match", "deletion"):
+            n = byid[a["score_id"]]
+            ents.append("s %s 0" % W.q(beats_exact(pd, n["t"])))
+            keys_f.append(("s", float(beats_exact(pd, n["t"]))))
+        else:
+            pn = pnotes[a["performance_id"]]
+            ents.append("p %s %d" % (W.q(pn["on"]), pn["pitch"]))
+            keys_f.append(("p", p2s(pn["on"])))
+    # the model takes score onsets in beats: they are sent as exact rationals computed by the model itself
+    # (request `enc`), here by the independent `beats_exact`; a disagreement of the two shows in `enc`.
+    safe = True
+    for i in range(len(keys_f)):
+        for j in range(i + 1, len(keys_f)):
+            if (keys_f[i][0] == "p" or keys_f[j][0] == "p") and abs(keys_f[i][1] - keys_f[j][1]) < 1e-3:
+                safe = False
+    # implementation: note lines in file order -> alignment entry index, and their primary keys
+    def entry_index(ln):
+        if ln.startswith("snote(") and "-deletion." in ln:
+            sid = SNOTE_RE.search(ln).group(1)
+            return next(i for i, a in enumerate(al) if a["label"] == "deletion" and a["score_id"] == sid)
+        if ln.startswith("snote("):
+            sid = SNOTE_RE.search(ln).group(1)
+            pid = NOTE_RE.search(ln).group(1)
+            return next(i for i, a in enumerate(al) if a["label"] == "match" and a["score_id"] == sid and a["performance_id"] == pid)
+        if ln.startswith("insertion-"):
+            pid = NOTE_RE.search(ln).group(1)
+            return next(i for i, a in enumerate(al) if a["label"] == "insertion" and a["performance_id"] == pid)
+        if ln.startswith("ornament("):
+            pid = NOTE_RE.search(ln).group(1)
+            return next(i for i, a in enumerate(al) if a["label"] == "ornament" and a["performance_id"] == pid)
+        return None
+
+    order = []
+    for ln in text:
+        if ln.startswith(("snote(", "insertion-", "ornament(")):
+            order.append(entry_index(ln))
+    body = "%s %s" % (W.lst(lambda x: x, pairs), W.lst(lambda x: x, ents))
+    ev.requests.append("ordk " + body)
+    ev.impl.append(("@approx", sorted(k for _, k in keys_f), 2e-4))
+    if safe:
+        ev.requests.append("ordi " + body)
+        ev.impl.append(W.f_list(str, order))
+    ev.info["order_safe"] = safe
+    # ---- pedal lines and ticks of the note lines
+    ev.requests.append("ped %d %d %s" % (mpq, ppq, W.lst(lambda c: "%d %s %d" % (c["number"], W.q(c["time"]), c["value"]), desc["perf"]["controls"])))
+    ev.impl.append(W.f_list(lambda m: W.f_tuple("64" if m.group(1) == "sustain" else "67", m.group(2), m.group(3)),
+                            [PEDAL_RE.match(ln) for ln in text if PEDAL_RE.match(ln)]))
+    nl = [NOTE_RE.search(ln) for ln in text if ln.startswith(("snote(", "insertion-", "ornament(")) and NOTE_RE.search(ln)]
+    times = []
+    ticks = []
+    for m in nl:
+        pn = pnotes[m.group(1)]
+        times += [pn["on"], pn["off"]]
+        ticks += [m.group(3), m.group(4)]
+    ev.requests.append("ptick %d %d %s" % (mpq, ppq, W.lst(W.q, times)))
+    ev.impl.append(W.f_list(str, ticks))
+    if "perf" in res:
+        lp = {n["id"]: n for n in res["perf"][0].notes}
+        secs = []
+        ok = True
+        for m in nl:
+            ln_ = lp.get(m.group(1))
+            if ln_ is None:
+                ok = False
+                break
+            secs += [float(ln_["note_on"]), float(ln_["note_off"])]
+        if ok:
+            ev.requests.append("psec %d %d %s" % (mpq, ppq, W.lst(W.q, times)))
+            ev.impl.append(("@approx", secs, 1e-9))
+    corr_load(text, res.get("mf_lines"), ev)
+    if "score" in res:
+        corr_dec(text, res, ev)
+
+
+def classify(line):
+    from partitura.io.matchfile_base import BaseSnoteNoteLine, BaseDeletionLine, BaseInsertionLine, BaseOrnamentLine
+
+    if isinstance(line, BaseSnoteNoteLine):
+        return "m", str(line.snote.Anchor), str(line.note.Id)
+    if isinstance(line, BaseDeletionLine):
+        return "d", str(line.snote.Anchor), None
+    if isinstance(line, BaseInsertionLine):
+        return "i", None, str(line.note.Id)
+    if isinstance(line, BaseOrnamentLine):
+        return "o", str(line.Anchor), str(line.note.Id)
+    return "x", None, None
+
+
+def corr_load(text, mf_lines, ev):
+    """the reader's de-duplication: raw text lines (parsed one by one with the real line parsers) -> model;
+    the lines load_matchfile keeps -> implementation"""
+    from partitura.io import importmatch as IM
+    from partitura.io.matchfile_utils import Version
+
+    if mf_lines is None:
+        return
+    raw = [ln for ln in text if ln != ""]
+    version = IM.get_version(raw[0])
+    methods = IM.FROM_MATCHLINE_METHODSV1 if not version < Version(1, 0, 0) else IM.FROM_MATCHLINE_METHODSV0
+    tid, sidn, pidn = {}, {}, {}
+    toks = []
+    cache = {}
+    for ln in raw:
+        t = tid.setdefault(ln, len(tid))
+        if ln not in cache:
+            cache[ln] = quiet(IM.parse_matchline, ln, methods, version)
+        pl = cache[ln]
+        if pl is None:
+            toks.append("%d n" % t)
+            continue
+        k, s_, p_ = classify(pl)
+        toks.append("%d %s %s %s" % (t, k, W.opt(str, None if s_ is None else sidn.setdefault(s_, len(sidn))),
+                                     W.opt(str, None if p_ is None else pidn.setdefault(p_, len(pidn)))))
+    kept = []
+    for l in mf_lines:
+        k, s_, p_ = classify(l)
+        kept.append(W.f_tuple(k, W.f_opt(str, None if s_ is None else sidn.get(s_, -1)), W.f_opt(str, None if p_ is None else pidn.get(p_, -1))))
+    ev.requests.append("load %s" % W.lst(lambda x: x, toks))
+    ev.impl.append("[" + ",".join(kept) + "]")
+    ev.info["n_raw"] = len(raw)
+    ev.info["n_kept"] = len(mf_lines)
+    return sidn, pidn
+
+
+def corr_dec(text, res, ev):
+    """score reconstruction: snote / signature lines of the text -> model; loaded part -> implementation"""
+    import partitura.score as S
+
+    lpart = res["score"][0]
+    kept = res["mf_lines"]
+    sn = []
+    for l in kept:
+        k, _, _ = classify(l)
+        if k in ("m", "d"):
+            sn.append(l.snote)
+    sn = [x for x in sn if str(x.NoteName).lower() != "r"]
+    if not sn:
+        return
+
+    def fr(f):
+        return "%d %d %d" % (int(f.numerator), int(f.denominator), int(f.tuple_div or 1))
+
+    def sn_tok(x):
+        comps = x.Duration.add_components or []
+        return "%d %d %s %s %s %s %s" % (x.Measure, x.Beat, fr(x.Offset), fr(x.Duration),
+                                          W.lst(lambda c: "%d %d %d" % (int(c[0]), int(c[1]), int(c[2] or 1)), comps),
+                                          W.q(Fraction(repr(float(x.OnsetInBeats)))), W.q(Fraction(repr(float(x.OffsetInBeats)))))
+
+    mf = res["mf"]
+    tsl = mf.time_signatures
+    ksl = mf.key_signatures
+    if not tsl:
+        return
+    body = "%s %s %s" % (
+        W.lst(sn_tok, sn),
+        W.lst(lambda t: "%s %d %d %d" % (W.q(Fraction(repr(float(t[0])))), t[1], t[2].numerator, t[2].denominator), tsl),
+        W.lst(lambda t: "%s %d" % (W.q(Fraction(repr(float(t[0])))), t[1]), ksl))
+    # implementation side
+    divs = int(lpart._quarter_durations[0])
+    meas = sorted(lpart.iter_all(S.Measure), key=lambda m: m.start.t)
+    names = sorted(set(int(x.Measure) for x in sn))
+    bl = []
+    last_end = None
+    for b in names:
+        c = [m for m in meas if m.name == str(b)]
+        if c:
+            m = max(c, key=lambda m: m.start.t)
+            bl.append(W.f_tuple(str(b), W.f_rat(W.as_fraction(m.start.t))))
+            last_end = m.end.t
+        else:
+            bl.append(W.f_tuple(str(b), "-"))
+    tsp = sorted((W.as_fraction(o.start.t), int(o.beats), int(o.beat_type)) for o in lpart.iter_all(S.TimeSignature))
+    ksp = sorted(W.as_fraction(o.start.t) for o in lpart.iter_all(S.KeySignature))
+    ev.requests.append("dec " + body)
+    ev.impl.append(W.f_tuple(str(divs), "[" + ",".join(bl) + "]", W.f_rat(W.as_fraction(last_end)) if last_end is not None else "-",
+                             W.f_list(lambda x: W.f_tuple(W.f_rat(x[0]), str(x[1]), str(x[2])), tsp),
+                             W.f_list(W.f_rat, ksp), str(res.get("n_fallback", 0))))
+    lna = {}
+    for n in lpart.notes_tied:
+        lna.setdefault(n.id, n)
+    vals = []
+    for x in sn:
+        n = lna.get(str(x.Anchor))
+        vals.append([float(n.start.t), float(n.duration_tied)] if n is not None else None)
+    ev.requests.append("decn " + body)
+    ev.impl.append(("@approx", vals, 1e-9))
+    rests = [r for r in lpart.iter_all(S.Rest) if r.start.t == 0 and r.id is None]
+    ev.requests.append("decr " + body)
+    ev.impl.append(("@approx", float(rests[0].end.t), 1e-9) if rests else "-")
+
+
+def oracle_load(text, res, label):
+    """the reader neither loses nor duplicates note lines; duplicates are resolved as documented"""
+    from partitura.io import importmatch as IM
+    from partitura.io.matchfile_utils import Version
+
+    F = []
+    if "mf_lines" not in res:
+        return ["%s: load_matchfile raised %s" % (label, res.get("load_error"))]
+    raw = []
+    seen = set()
+    for ln in text:
+        if ln != "" and ln not in seen:
+            seen.add(ln)
+            raw.append(ln)
+    version = IM.get_version(raw[0])
+    methods = IM.FROM_MATCHLINE_METHODSV1 if not version < Version(1, 0, 0) else IM.FROM_MATCHLINE_METHODSV0
+    parsed = [quiet(IM.parse_matchline, ln, methods, version) for ln in raw]
+    cl = [classify(pl) for pl in parsed if pl is not None]
+    from collections import Counter
+
+    sc = Counter(s_ for k, s_, p_ in cl if k in ("m", "d"))
+    pc = Counter(p_ for k, s_, p_ in cl if k in ("m", "i", "o"))
+    want = []
+    for k, s_, p_ in cl:
+        if k == "d" and sc[s_] > 1:
+            continue
+        want.append((k, s_, p_))
+    pc2 = Counter(p_ for k, s_, p_ in want if k in ("m", "i", "o"))
+    want = [(k, s_, p_) for k, s_, p_ in want if not (k == "i" and pc2[p_] > 1)]
+    got = [classify(l) for l in res["mf_lines"]]
+    wn = [x for x in want if x[0] != "x"]
+    gn = [x for x in got if x[0] != "x"]
+    if wn != gn:
+        miss = [x for x in wn if x not in gn]
+        extra = [x for x in gn if x not in wn]
+        F.append("%s: note lines kept by the reader differ from the documented rule: missing %r unexpected %r (kept %d, expected %d)" % (
+            label, miss[:3], extra[:3], len(gn), len(wn)))
+    if len(want) != len(got):
+        F.append("%s: %d lines kept, %d expected" % (label, len(got), len(want)))
+    for k, s_, p_ in cl:
+        if k == "m" and (k, s_, p_) not in got:
+            F.append("%s: a match line was dropped: %r" % (label, (s_, p_)))
+    def npid(x):
+        return x if x is None or x.startswith("n") else "n" + x
+
+    gn = [(k, s_, npid(p_)) for k, s_, p_ in gn]
+    if "align" in res:
+        al = [(a["label"][0] if a["label"] != "ornament" else "o", a.get("score_id"), a.get("performance_id")) for a in res["align"]]
+        if sorted(al, key=repr) != sorted(gn, key=repr):
+            F.append("%s: alignment entries are not the kept note lines" % label)
+    if "perf" in res:
+        ids = [n["id"] for n in res["perf"][0].notes]
+        wid = [p_ for k, s_, p_ in gn if p_ is not None]
+        if sorted(ids) != sorted(wid):
+            F.append("%s: performed notes %d, note-carrying lines kept %d (lost %r, duplicated/extra %r)" % (
+                label, len(ids), len(wid), [x for x in wid if x not in ids][:3], [x for x in ids if x not in wid][:3]))
+    return F
+
+
+def eval_fixture(desc, ev):
+    fn = os.path.join(FIXDIR, desc["file"])
+    text = open(fn).read().splitlines()
+    res = {}
+    load_all(fn, res)
+    ev.oracle = oracle_load(text, res, "fixture")
+    if "load_error" in res:
+        ev.oracle.append("fixture: loading %s raised %s" % (desc["file"], res["load_error"]))
+    corr_load(text, res.get("mf_lines"), ev)
+    if "score" in res:
+        corr_dec(text, res, ev)
+    ev.key = "fixture:" + desc["file"]
+    return ev
+
+
+def dedup_edit(seed):
+    """inject duplicate / conflicting note lines into a written file"""
+    def edit(text):
+        rng = random.Random(seed)
+        notes = [i for i, ln in enumerate(text) if ln.startswith(("snote(", "insertion-"))]
+        out = list(text)
+        matches = [ln for ln in text if ln.startswith("snote(") and ")-note(" in ln]
+        dels = [ln for ln in text if ln.endswith("-deletion.")]
+        ins = [ln for ln in text if ln.startswith("insertion-")]
+        extra = []
+        for _ in range(rng.randint(1, 6)):
+            r = rng.random()
+            if r < 0.2 and notes:
+                extra.append(text[rng.choice(notes)])                       # exact duplicate line
+            elif r < 0.45 and matches:
+                m = rng.choice(matches)
+                extra.append(m[:m.index(")-note(") + 1] + "-deletion.")      # deletion conflicting with a match
+            elif r < 0.7 and matches:
+                m = rng.choice(matches)
+                extra.append("insertion-" + m[m.index(")-note(") + 2:])       # insertion conflicting with a match
+            elif r < 0.8 and dels:
+                dl = rng.choice(dels)
+                extra.append(dl.replace(",[", ",[dup,", 1) if ",[]" not in dl else dl.replace(",[]", ",[dup]"))  # second deletion, other text
+            elif r < 0.9 and ins:
+                il = rng.choice(ins)
+                mm = NOTE_RE.search(il)
+                extra.append(il.replace(",%s,%s)." % (mm.group(6), mm.group(7)), ",%d,%s)." % (int(mm.group(6)) + 1, mm.group(7))))  # second insertion
+            elif matches:
+                m = rng.choice(matches)
+                mm = NOTE_RE.search(m)
+                extra.append(m.replace("note(%s," % mm.group(1), "note(%sx," % mm.group(1)))   # second match of the same snote
+        for ln in extra:
+            out.insert(rng.randint(min(notes) if notes else 0, len(out)), ln)
+        if rng.random() < 0.3:
+            out.insert(rng.randint(0, len(out)), "")
+        return out
+    return edit
+
+
+def eval_dedup(desc, ev):
+    base = desc["base"]
+    res = save_and_load(base, edit_text=dedup_edit(desc["seed"]))
+    if "text" not in res:
+        return ev
+    ev.oracle = oracle_load(res["text"], res, "dedup")
+    corr_load(res["text"], res.get("mf_lines"), ev)
+    ev.key = "dedup:%s:%s" % (base.get("sub"), desc["seed"])
+    ev.info["n_dropped"] = ev.info.get("n_raw", 0) - ev.info.get("n_kept", 0)
+    return ev
 
 
 # ====================================================================== evaluate
@@ -575,8 +1072,23 @@ def evaluate(desc):
     if k == "rt":
         res = save_and_load(desc)
         ev.oracle = oracle_rt(desc, res)
-        ev.key = "rt:%s" % desc.get("sub")
+        corr_rt(desc, res, ev)
+        feats = []
+        pd = desc["part"]
+        if len(set(x[2] for x in pd["ts"])) > 1:
+            feats.append("mixed-den")
+        if len(pd["ts"]) > 1:
+            feats.append("ts-change")
+        if pd["measures"][0][1] - pd["measures"][0][0] < Fraction(4 * pd["divs"] * pd["ts"][0][1], pd["ts"][0][2]):
+            feats.append("pickup")
+        ev.info["feats"] = feats
+        ev.info["covered"] = bars_covered(desc)
+        ev.key = "rt:%s:%d" % (desc.get("sub"), len(desc["align"])) if "text" in res else None
         return ev
+    if k == "fixture":
+        return eval_fixture(desc, ev)
+    if k == "dedup":
+        return eval_dedup(desc, ev)
     return ev
 
 
@@ -597,7 +1109,15 @@ if __name__ == "__main__":
         tot += 1
         if tot > n:
             break
-        ev = evaluate(desc)
+        import signal
+        def _h(*a): raise TimeoutError()
+        signal.signal(signal.SIGALRM, _h); signal.alarm(20)
+        try:
+            ev = evaluate(desc)
+        except TimeoutError:
+            print("TIMEOUT", desc.get("sub")); continue
+        finally:
+            signal.alarm(0)
         for f in ev.oracle:
             kk = finding_key(desc, f)
             cnt[kk] += 1
